@@ -29,21 +29,29 @@ CONSTANTS Readers, Writers,
           MaxWrites,        \* total number of store calls
           MaxReads,         \* read calls per reader (ignored when Perpetual)
           Perpetual,
-          MutNoBarrier,     \* store frees the old value right after the swap
-          MutOnlyOldSlot,   \* barrier waits only for the slot of the generation it found
-          MutOnlyNewSlot,   \* barrier waits only for the slot of the generation it switched to
-          MutLoadFirst      \* reader loads the pointer before it takes the lock
+          Muts              \* set of model mutations, one is chosen in Init ("none" = the code as it is):
+                            \*   "nobarrier"  store frees the old value right after the swap
+                            \*   "oldslot"    barrier waits only for the slot of the generation it found
+                            \*   "newslot"    barrier waits only for the slot of the generation it switched to
+                            \*   "loadfirst"  reader loads the pointer before it takes the lock
 
-VARIABLES data, gen, lock, mutex, alive, nver,
+VARIABLES mut, data, gen, lock, mutex, alive, nver,
           rpc, rslot, rptr, reads,
           wpc, wold, wval, seen, pass, wslot
 
-vars == <<data, gen, lock, mutex, alive, nver, rpc, rslot, rptr, reads, wpc, wold, wval, seen, pass, wslot>>
+vars == <<mut, data, gen, lock, mutex, alive, nver, rpc, rslot, rptr, reads, wpc, wold, wval, seen, pass, wslot>>
 
-NoW == "free"
+NoW == 0
+MutNoBarrier == mut = "nobarrier"
+MutOnlyOldSlot == mut = "oldslot"
+MutOnlyNewSlot == mut = "newslot"
+MutLoadFirst == mut = "loadfirst"
+MutsNone == {"none"}
+MutsAll == {"nobarrier", "oldslot", "newslot", "loadfirst"}
 Slots == {0, 1}
 
 Init ==
+  /\ mut \in Muts
   /\ data = 0 /\ gen = 0 /\ lock = [i \in Slots |-> 0] /\ mutex = NoW
   /\ alive = {0} /\ nver = 1
   /\ rpc = [r \in Readers |-> "idle"] /\ rslot = [r \in Readers |-> 0] /\ rptr = [r \in Readers |-> 0]
@@ -97,13 +105,17 @@ RUnlock(r) ==
   /\ UNCHANGED <<data, gen, mutex, alive, nver, rslot, rptr, reads, WVars>>
 
 (* ------------------------------- writers -------------------------------- *)
-StoreCall(w) ==
+\* the stored value is identified by a version id that is not in use (the exhaustive configs take the
+\* next unused number; a recorded trace brings its own ids)
+StoreCallV(w, v) ==
   /\ wpc[w] = "idle"
-  /\ nver <= MaxWrites
-  /\ wval' = [wval EXCEPT ![w] = nver]
-  /\ nver' = nver + 1
+  /\ v \notin alive
+  /\ wval' = [wval EXCEPT ![w] = v]
+  /\ nver' = IF v >= nver THEN v + 1 ELSE nver
   /\ wpc' = [wpc EXCEPT ![w] = "lock"]
   /\ UNCHANGED <<data, gen, lock, mutex, alive, RVars, wold, seen, pass, wslot>>
+
+StoreCall(w) == nver <= MaxWrites /\ StoreCallV(w, nver)
 
 WLock(w) ==
   /\ wpc[w] = "lock"
@@ -163,18 +175,19 @@ WUnlock(w) ==
   /\ wpc' = [wpc EXCEPT ![w] = "idle"]
   /\ UNCHANGED <<data, gen, lock, alive, nver, RVars, wold, wval, seen, pass, wslot>>
 
-ReaderStep(r) == RLoadGen(r) \/ RLockInc(r) \/ RLoadData(r) \/ RUnlock(r)
-WriterStep(w) == WLock(w) \/ WSwap(w) \/ WSeen(w) \/ WGenInc(w) \/ WCheck(w) \/ WFree(w) \/ WUnlock(w)
+ReaderStep(r) == UNCHANGED mut /\ (RLoadGen(r) \/ RLockInc(r) \/ RLoadData(r) \/ RUnlock(r))
+WriterStep(w) == UNCHANGED mut /\ (WLock(w) \/ WSwap(w) \/ WSeen(w) \/ WGenInc(w) \/ WCheck(w) \/ WFree(w) \/ WUnlock(w))
+ReaderEnv(r) == UNCHANGED mut /\ (ReadCall(r) \/ ReadRet(r) \/ ReleaseCall(r))
 
 Next ==
-  \/ \E r \in Readers : ReadCall(r) \/ ReaderStep(r) \/ ReadRet(r) \/ ReleaseCall(r)
-  \/ \E w \in Writers : StoreCall(w) \/ WriterStep(w)
+  \/ \E r \in Readers : ReaderEnv(r) \/ ReaderStep(r)
+  \/ \E w \in Writers : (UNCHANGED mut /\ StoreCall(w)) \/ WriterStep(w)
 
 Spec == Init /\ [][Next]_vars
 
 \* every started call is continued; guards are released eventually (a handler returns)
 Fair ==
-  /\ \A r \in Readers : WF_vars(ReaderStep(r) \/ ReadRet(r) \/ ReleaseCall(r))
+  /\ \A r \in Readers : WF_vars(ReaderStep(r) \/ (UNCHANGED mut /\ (ReadRet(r) \/ ReleaseCall(r))))
   /\ \A w \in Writers : WF_vars(WriterStep(w))
 FairSpec == Spec /\ Fair
 
@@ -194,6 +207,15 @@ ReadWaitFree == \A r \in Readers : rpc[r] \in {"gen", "inc", "ptr", "dec"} => EN
 \* a guard returned after a store has returned sees that store (or a later one)
 TypeOK == /\ gen \in Slots /\ data \in 0..MaxWrites /\ alive \subseteq 0..MaxWrites
           /\ \A i \in Slots : lock[i] \in 0..Cardinality(Readers)
+
+\* control configuration (one TLC run, -workers 1): every mutation must reach a state violating Safe;
+\* CtlSeen is always TRUE and prints the name of a mutation the first time that happens
+CtlIdx == CASE mut = "nobarrier" -> 21 [] mut = "oldslot" -> 22 [] mut = "newslot" -> 23 [] mut = "loadfirst" -> 24 [] OTHER -> 25
+CtlInit == \A i \in 21..25 : TLCSet(i, 0)
+CtlSeen == (~Safe /\ TLCGet(CtlIdx) = 0) => (TLCSet(CtlIdx, 1) /\ PrintT(<<"CTL", mut>>))
+\* states of a mutation whose violation has been seen are not explored any further
+CtlCons == TLCGet(CtlIdx) = 0
+CtlSpec == CtlInit /\ Spec
 
 Perms == Permutations(Readers) \cup Permutations(Writers)
 
